@@ -65,6 +65,33 @@ def documented_new_path(repo):
     return sorted(names), docs
 
 
+def has_loop_curve(path):
+    """the path (Path.String(): absolute M/L/Q/C/A/z) has a Bezier segment whose end point is its start point"""
+    import re
+    toks = re.findall(r"[MLQCAz]|-?[0-9.]+(?:e[-+]?[0-9]+)?", path)
+    i, cur, start = 0, (0.0, 0.0), (0.0, 0.0)
+    n = {"M": 2, "L": 2, "Q": 4, "C": 6, "A": 7, "z": 0}
+    while i < len(toks):
+        c = toks[i]
+        if c not in n:
+            return False
+        try:
+            a = [float(x) for x in toks[i + 1:i + 1 + n[c]]]
+        except ValueError:
+            return False
+        i += 1 + n[c]
+        if c == "z":
+            cur = start
+            continue
+        end = (a[-2], a[-1])
+        if c in "QC" and end == cur:
+            return True
+        if c == "M":
+            start = end
+        cur = end
+    return False
+
+
 def run(ctx):
     pr, obligations, discharged = vlib.proof_stage(ctx, ["theories/Corr/C10.vo"])
     if pr["broken"] or not pr["ok"]:
@@ -188,7 +215,8 @@ def run(ctx):
             if (e.get("status") == "open" and e.get("methods") and f["method"] in e["methods"] and e.get("kind") == f["kind"]
                     and e.get("detail_contains", "") in f["detail"]
                     and (not e.get("detail_any") or any(x in f["detail"] for x in e["detail_any"]))
-                    and (not e.get("paths") or d.get("path") in e["paths"])):      # "paths": exact receivers only
+                    and (not e.get("paths") or d.get("path") in e["paths"])      # "paths": exact receivers only
+                    and (not e.get("loop_curve") or has_loop_curve(d.get("path", "")))):   # input class decidable from the receiver
                 kf = e
         if kf:
             if kf["key"] not in known_flag_reported:
